@@ -510,6 +510,8 @@ def r8_gaussian(repo: Repo, rep):
 
 def run(repo: Repo, rep):
     r6b_dependency_flags(repo, rep)
+    from .c02 import r9_motion_params  # a row's points are the uniformly sampled inner points moved with THAT row's motion
+    r9_motion_params(repo, rep)
     r1_r2_radial(repo, rep)
     r3_arclength(repo, rep)
     r4_mirror(repo, rep)
